@@ -1,4 +1,4 @@
-Require Import Base.Bytes Net.Frame Net.Framed Net.FramedProofs Net.Async Net.AsyncProofs Net.AsyncRefines Net.Concrete Net.AsyncConvProofs.
+Require Import Base.Bytes Net.Frame Net.Framed Net.FramedProofs Net.Async Net.AsyncProofs Net.AsyncRefines Net.Concrete Net.AsyncConvProofs Net.AsyncResults.
 Require Import Props.C19.
 Local Open Scope N_scope.
 Check c19_cancel_safe :
@@ -58,6 +58,24 @@ Check c19_conversation_wire_is_whole_frames :
     WInv packet is_keepalive pong s (done ++ acc) ->
     conv_ok packet is_keepalive pong done (aconv packet parse ver_of is_keepalive version m verify pong fuel c s rs ws cancels wsched acc).
 Check c19_model_state_is_the_struct : state_tied = true.
+Check c19_results_are_the_connections :
+  forall (packet : Type) (parse : bytes -> res packet) (ver_of : packet -> option N)
+         (is_keepalive : packet -> bool) (version : N) (m : mode) (verify : bool) (pong : bytes),
+  forall fuel c s rs ws cancels wsched acc,
+    forallb no_fail ws = true ->
+    Inv packet parse ver_of is_keepalive version m verify pong c s ->
+    prefix (results packet (aconv packet parse ver_of is_keepalive version m verify pong fuel c s rs ws cancels wsched acc))
+           (held packet s ++ rets packet (session packet parse ver_of is_keepalive version m verify pong fuel (fbuf s) (strip rs ++ [Eof]))).
+Check c19_results_complete_at_end_of_stream :
+  forall (packet : Type) (parse : bytes -> res packet) (ver_of : packet -> option N)
+         (is_keepalive : packet -> bool) (version : N) (m : mode) (verify : bool) (pong : bytes),
+  forall fuel c s rs ws cancels wsched acc pre x,
+    forallb no_fail ws = true ->
+    Inv packet parse ver_of is_keepalive version m verify pong c s ->
+    results packet (aconv packet parse ver_of is_keepalive version m verify pong fuel c s rs ws cancels wsched acc) = pre ++ [x] ->
+    is_final packet (Ret x) = true ->
+    results packet (aconv packet parse ver_of is_keepalive version m verify pong fuel c s rs ws cancels wsched acc)
+    = held packet s ++ rets packet (session packet parse ver_of is_keepalive version m verify pong fuel (fbuf s) (strip rs ++ [Eof])).
 Print Assumptions c19_cancel_safe.
 Print Assumptions c19_resume_equals_fresh.
 Print Assumptions c19_suspension_invariant.
@@ -67,3 +85,5 @@ Print Assumptions c19_reply_state_in_future_refuted.
 Print Assumptions c19_conversation_without_writes_is_the_session.
 Print Assumptions c19_conversation_wire_is_whole_frames.
 Print Assumptions c19_model_state_is_the_struct.
+Print Assumptions c19_results_are_the_connections.
+Print Assumptions c19_results_complete_at_end_of_stream.
